@@ -298,7 +298,7 @@ func runSSH(creds []string, haveCreds bool, conns []SConn) (SObs, string) {
 // ================= ldap =================
 
 type LReq struct {
-	Kind string `json:"kind"` // bind | op
+	Kind string `json:"kind"` // bind | bind-short | bind-badname | bind-other | op
 	Ver  int64  `json:"ver,omitempty"`
 	DN   string `json:"dn,omitempty"`
 	Pw   string `json:"pw,omitempty"`
@@ -333,6 +333,30 @@ func ldapPacket(id int64, r LReq) []byte {
 		b.AppendChild(ber.NewInteger(ber.ClassUniversal, ber.TypePrimitive, ber.TagInteger, r.Ver, ""))
 		b.AppendChild(ber.NewString(ber.ClassUniversal, ber.TypePrimitive, ber.TagOctetString, r.DN, ""))
 		b.AppendChild(ber.NewString(ber.ClassContext, ber.TypePrimitive, 0, r.Pw, ""))
+		p.AppendChild(b)
+	case "bind-short": // fewer than 3 elements: Tag of them (0..2)
+		b := ber.Encode(ber.ClassApplication, ber.TypeConstructed, 0, nil, "")
+		if r.Tag >= 1 {
+			b.AppendChild(ber.NewInteger(ber.ClassUniversal, ber.TypePrimitive, ber.TagInteger, r.Ver, ""))
+		}
+		if r.Tag >= 2 {
+			b.AppendChild(ber.NewString(ber.ClassUniversal, ber.TypePrimitive, ber.TagOctetString, r.DN, ""))
+		}
+		p.AppendChild(b)
+	case "bind-badname": // the name element is an INTEGER
+		b := ber.Encode(ber.ClassApplication, ber.TypeConstructed, 0, nil, "")
+		b.AppendChild(ber.NewInteger(ber.ClassUniversal, ber.TypePrimitive, ber.TagInteger, r.Ver, ""))
+		b.AppendChild(ber.NewInteger(ber.ClassUniversal, ber.TypePrimitive, ber.TagInteger, int64(7), ""))
+		b.AppendChild(ber.NewString(ber.ClassContext, ber.TypePrimitive, 0, r.Pw, ""))
+		p.AppendChild(b)
+	case "bind-other": // authentication choice sasl [3] { mechanism, credentials }
+		b := ber.Encode(ber.ClassApplication, ber.TypeConstructed, 0, nil, "")
+		b.AppendChild(ber.NewInteger(ber.ClassUniversal, ber.TypePrimitive, ber.TagInteger, r.Ver, ""))
+		b.AppendChild(ber.NewString(ber.ClassUniversal, ber.TypePrimitive, ber.TagOctetString, r.DN, ""))
+		sasl := ber.Encode(ber.ClassContext, ber.TypeConstructed, 3, nil, "")
+		sasl.AppendChild(ber.NewString(ber.ClassUniversal, ber.TypePrimitive, ber.TagOctetString, "PLAIN", ""))
+		sasl.AppendChild(ber.NewString(ber.ClassUniversal, ber.TypePrimitive, ber.TagOctetString, "\x00"+r.DN+"\x00"+r.Pw, ""))
+		b.AppendChild(sasl)
 		p.AppendChild(b)
 	default:
 		if r.Tag == 10 { // DelRequest ::= [APPLICATION 10] LDAPDN (primitive)
